@@ -260,6 +260,13 @@ var PexSeedMode bool
 // configuration: tx_pool.TxPoolConfig.Broadcast = false).
 var TxBroadcastOff bool
 
+// SyncPeerTimeout: the block-sync scheduler of the next environment runs with this peer timeout and the production
+// sync timeout (0: both one hour, i.e. never during a case). configs.DefaultFastSyncConfig has 15 s.
+var SyncPeerTimeout time.Duration
+
+// NoAnchor: the next syncing environment gets no anchor peer (the case scripts all peers itself).
+var NoAnchor bool
+
 // scratchDir makes a directory under the run's scratch area (created by the parent process, removed by
 // it at the end of the run; tmpfs if available).
 func scratchDir() string {
@@ -321,7 +328,11 @@ func NewEnv(mode string, height uint64) (*Env, error) {
 	fs := configs.DefaultFastSyncConfig()
 	fs.Enable = mode == "syncing"
 	// the sync must not end by a timeout while the case runs (wall-clock timers of the scheduler)
-	fs.PeerTimeout, fs.SyncTimeout = time.Hour, time.Hour
+	if SyncPeerTimeout > 0 {
+		fs.PeerTimeout = SyncPeerTimeout // (group blocksync-withheld-lowest: the scheduler's timers are the subject)
+	} else {
+		fs.PeerTimeout, fs.SyncTimeout = time.Hour, time.Hour
+	}
 	e.wire(fs)
 	// start: the victim's consensus state is started by its manager, as in production
 	for _, n := range nt.Nodes {
@@ -344,7 +355,7 @@ func NewEnv(mode string, height uint64) (*Env, error) {
 			return nil, fmt.Errorf("network did not reach height %d: %+v", height, res)
 		}
 	}
-	if mode == "syncing" {
+	if mode == "syncing" && !NoAnchor {
 		// An honest peer that announced blocks and is slow to deliver them keeps the node in fast-sync
 		// mode (without it the scheduler declares the sync finished as soon as the first peer leaves).
 		if err := e.anchor(); err != nil {
